@@ -1157,6 +1157,38 @@ pub mod verif_dispatcher {
         CancelSignalTwice,
     }
 
+    /// A request received by a unit.
+    #[derive(Clone, Copy, Debug, Eq, PartialEq)]
+    #[allow(missing_docs)]
+    pub enum VerifRequest {
+        OtherCancel,
+        ShutdownOnce(VerifShutdown),
+        ShutdownTwice,
+        Stop,
+        Continue,
+        GetInfo,
+    }
+
+    pub(super) fn request_of(req: &RunUnitRequest<'_>) -> VerifRequest {
+        match req {
+            RunUnitRequest::OtherCancel => VerifRequest::OtherCancel,
+            RunUnitRequest::Signal(SignalRequest::Shutdown(ShutdownRequest::Once(e))) => {
+                VerifRequest::ShutdownOnce(match e {
+                    ShutdownEvent::Hangup => VerifShutdown::Hangup,
+                    ShutdownEvent::Term => VerifShutdown::Term,
+                    ShutdownEvent::Quit => VerifShutdown::Quit,
+                    ShutdownEvent::Interrupt => VerifShutdown::Interrupt,
+                })
+            }
+            RunUnitRequest::Signal(SignalRequest::Shutdown(ShutdownRequest::Twice)) => {
+                VerifRequest::ShutdownTwice
+            }
+            RunUnitRequest::Signal(SignalRequest::Stop(_)) => VerifRequest::Stop,
+            RunUnitRequest::Signal(SignalRequest::Continue) => VerifRequest::Continue,
+            RunUnitRequest::Query(RunUnitQuery::GetInfo(_)) => VerifRequest::GetInfo,
+        }
+    }
+
     /// State of the context after a step.
     #[derive(Clone, Copy, Debug)]
     #[allow(missing_docs)]
@@ -1178,6 +1210,9 @@ pub mod verif_dispatcher {
         pub handshake: VerifHandshake,
         pub response: VerifResponse,
         pub state: VerifState,
+        /// What `handle_event` itself sent to individual units (test index, or `None` for a setup
+        /// script) on their request channels; broadcasts are made by `run`, not by `handle_event`.
+        pub received: Vec<(Option<usize>, Vec<VerifRequest>)>,
     }
 
     type Callback = Box<dyn FnMut(TestEvent<'static>) + Send>;
@@ -1195,7 +1230,8 @@ pub mod verif_dispatcher {
         emitted: Arc<Mutex<Vec<VerifEmitted>>>,
         pending: Option<Pending>,
         // request receivers of accepted units are kept alive, as a live unit would
-        unit_channels: Vec<UnboundedReceiver<RunUnitRequest<'static>>>,
+        unit_channels: Vec<(Option<usize>, UnboundedReceiver<RunUnitRequest<'static>>)>,
+        pending_key: Option<usize>,
     }
 
     fn test_index(tests: &[TestInstance<'static>], t: &TestInstance<'_>) -> usize {
@@ -1410,11 +1446,16 @@ pub mod verif_dispatcher {
                 emitted,
                 pending: None,
                 unit_channels: Vec::new(),
+                pending_key: None,
             }
         }
 
         fn input_to_event(&mut self, input: VerifInput) -> InternalEvent<'static> {
             self.pending = None;
+            self.pending_key = match input {
+                VerifInput::Started { test } | VerifInput::RetryStarted { test, .. } => Some(test),
+                _ => None,
+            };
             match input {
                 VerifInput::SetupScriptStarted { script } => {
                     let (req_rx_tx, req_rx_rx) = oneshot::channel();
@@ -1544,7 +1585,7 @@ pub mod verif_dispatcher {
                 None => VerifHandshake::NoChannel,
                 Some(Pending::Unit(mut rx)) => match rx.try_recv() {
                     Ok(req_rx) => {
-                        self.unit_channels.push(req_rx);
+                        self.unit_channels.push((self.pending_key, req_rx));
                         VerifHandshake::Accepted
                     }
                     Err(_) => VerifHandshake::Refused,
@@ -1603,11 +1644,23 @@ pub mod verif_dispatcher {
             };
             let handshake = self.take_handshake();
             let emitted = std::mem::take(&mut *self.emitted.lock().unwrap());
+            let received = self
+                .unit_channels
+                .iter_mut()
+                .filter_map(|(key, rx)| {
+                    let mut got = Vec::new();
+                    while let Ok(req) = rx.try_recv() {
+                        got.push(request_of(&req));
+                    }
+                    (!got.is_empty()).then_some((*key, got))
+                })
+                .collect();
             VerifStep {
                 emitted,
                 handshake,
                 response,
                 state: self.state(),
+                received,
             }
         }
     }
@@ -1626,48 +1679,17 @@ pub mod verif_dispatcher_loop {
     };
     use std::sync::{Arc, Mutex};
 
-    /// A request received by a unit.
-    #[derive(Clone, Copy, Debug, Eq, PartialEq)]
-    #[allow(missing_docs)]
-    pub enum VerifRequest {
-        OtherCancel,
-        ShutdownOnce(VerifShutdown),
-        ShutdownTwice,
-        Stop,
-        Continue,
-        GetInfo,
-    }
-
     /// What happened after one input was fed to the loop.
     #[derive(Clone, Debug)]
     #[allow(missing_docs)]
     pub struct VerifLoopStep {
         pub emitted: Vec<VerifEmitted>,
         pub handshake: VerifHandshake,
-        /// For every unit whose request channel is live (in hand-over order): what it received.
-        pub received: Vec<Vec<VerifRequest>>,
+        /// For every unit whose request channel is live (test index, `None` for a setup script;
+        /// in hand-over order): what it received.
+        pub received: Vec<(Option<usize>, Vec<VerifRequest>)>,
         /// The loop returned (all senders gone) — only after the last input.
         pub loop_finished: bool,
-    }
-
-    fn request_of(req: &RunUnitRequest<'_>) -> VerifRequest {
-        match req {
-            RunUnitRequest::OtherCancel => VerifRequest::OtherCancel,
-            RunUnitRequest::Signal(SignalRequest::Shutdown(ShutdownRequest::Once(e))) => {
-                VerifRequest::ShutdownOnce(match e {
-                    ShutdownEvent::Hangup => VerifShutdown::Hangup,
-                    ShutdownEvent::Term => VerifShutdown::Term,
-                    ShutdownEvent::Quit => VerifShutdown::Quit,
-                    ShutdownEvent::Interrupt => VerifShutdown::Interrupt,
-                })
-            }
-            RunUnitRequest::Signal(SignalRequest::Shutdown(ShutdownRequest::Twice)) => {
-                VerifRequest::ShutdownTwice
-            }
-            RunUnitRequest::Signal(SignalRequest::Stop(_)) => VerifRequest::Stop,
-            RunUnitRequest::Signal(SignalRequest::Continue) => VerifRequest::Continue,
-            RunUnitRequest::Query(RunUnitQuery::GetInfo(_)) => VerifRequest::GetInfo,
-        }
     }
 
     enum Pending {
@@ -1923,12 +1945,12 @@ pub mod verif_dispatcher_loop {
                 };
                 let received = units
                     .iter_mut()
-                    .map(|(rx, _, _)| {
+                    .map(|(rx, key, _)| {
                         let mut got = Vec::new();
                         while let Ok(req) = rx.try_recv() {
                             got.push(request_of(&req));
                         }
-                        got
+                        (*key, got)
                     })
                     .collect();
                 steps.push(VerifLoopStep {
